@@ -244,6 +244,82 @@ def cancel_held_script(rnd, sid):
     return sc
 
 
+def cancel_midframe_script(rnd, sid, n=None):
+    """cancellation at any point of a frame's transmission: the peer stalls after taking k bytes of a (large) frame —
+    nothing, part of the header, the header, inside the payload incl. the 32 KiB / 64 KiB boundaries, all but the last
+    byte — the sender is cancelled, an acknowledgement and another sender queue up, the peer resumes. The raw byte
+    stream must still be whole frames: the cancelled request's frame complete, with its own bytes. Go only."""
+    b = cc.SB(sid, version=1)
+    b.connect()
+    tag = rnd.randrange(1, 1 << 20) * 64
+    if n is None:
+        n = rnd.choice([65537, 65537, 70000, 98305, 131073, 200, 5000, 40000, 65536])
+    total = n + 10
+    k = rnd.choice([x for x in (0, 5, 10, 11, 4096, 32768, 32778, 40960, 65536, 65546, 102400, total - 1) if x < total])
+    if rnd.random() < 0.4:
+        b.send(1, rnd.choice(REQ_TYPES), rnd.choice([0, 9, 300]), tag + 1, expect=False)
+        b.op("drain_raw")
+    b.send(2, rnd.choice(REQ_TYPES), n, tag + 2, expect=False)
+    if k:
+        b.op("peer_read", n=k)
+    order = rnd.choice(["cancel-first", "queue-first"])
+    if order == "cancel-first":
+        b.cancel(2)
+    if rnd.random() < 0.7:
+        b.keepalive(rnd.randrange(1 << 32))
+    if rnd.random() < 0.7:
+        b.send(3, rnd.choice([t for t in REQ_TYPES if t != b.reqs[2]["typ"]]), rnd.choice([0, 4, 700]), tag + 3, expect=False)
+    if order == "queue-first":
+        b.cancel(2)
+    b.op("drain_raw")
+    b.keepalive(7)
+    b.op("drain_raw")
+    b.op("state")
+    sc = b.script()
+    sc["family"] = "cancel-midframe"
+    sc["step_ms"] = 2000
+    return sc
+
+
+TYPE_SET = [0, 1, 2, 62, 899, 900, 999, 1000, 1023, 1024, 1025, 1086, 2047, 2048, 4097, 32768, 33791, 65535]
+
+
+def types_script(rnd, sid, api, with_payload, version):
+    """every exported way of submitting a message (SendMessage, SendFor, SendNoWait with a Message from NewHdrOnlyMsg /
+    NewByteMessage) x message types over the whole uint16 range: either the call is refused (error or panic; nothing on the
+    wire) or the frame on the wire carries exactly that 10-bit type, no reserved bit and the client's version. Go only; the
+    raw bytes are decoded by the python parser."""
+    b = cc.SB(sid, version=version)
+    b.connect(cur=2, mx=2)
+    if version == 2:
+        b.op("drain_raw")
+    tag = rnd.randrange(1, 1 << 20) * 64
+    types = rnd.sample(TYPE_SET, 5) + [rnd.choice([1, 3, 20, 44, 1023])]
+    c = 1
+    for t in types:
+        n = (1 + rnd.randrange(0, 40)) if with_payload else 0
+        b.send(c, t, n, tag + c, expect=False, api=(None if api == "SendMessage" else api), ver=0)
+        b.wait(c)
+        b.op("drain_raw")
+        c += 1
+    b.op("state")
+    sc = b.script()
+    sc["family"] = "types"
+    sc["api"] = api
+    return sc
+
+
+def types_scripts(rnd, thorough):
+    out = []
+    for api in ("SendMessage", "SendFor", "SendNoWait"):
+        for with_payload in (False, True):
+            for version in (1, 2):
+                for rep in range(4 if thorough else 1):
+                    out.append(types_script(rnd, "c05-types-%s-%s-v%d-%d" % (api, "pl" if with_payload else "hdr", version, rep),
+                                            api, with_payload, version))
+    return out
+
+
 # ---------------------------------------------------------------- static: who writes to the connection?
 READ_USE = re.compile(r"io\.ReadFull\(\s*c\.conn|io\.ReadAtLeast\(\s*c\.conn|io\.LimitReader\(\s*c\.conn|io\.Copy(N|Buffer)?\(\s*io\.Discard\s*,\s*c\.conn|"
                       r"c\.conn\.Read\(|c\.conn\.Set(Read|Write)?Deadline\(|c\.conn\.(Remote|Local)Addr\(|bufio\.NewReader(Size)?\(\s*c\.conn|"
@@ -346,7 +422,8 @@ def run(tier, seed, replay=None):
     if replay:
         rp_data = json.load(open(replay))
         scripts = [rp_data["script"]] if "script" in rp_data else []
-        if scripts and scripts[0].get("family") in ("close-payload", "gated", "wtimeout", "wdeadline", "cancel-held"):
+        if scripts and scripts[0].get("family") in ("close-payload", "gated", "wtimeout", "wdeadline", "cancel-held",
+                                                    "cancel-midframe", "types"):
             pred_only, scripts = scripts, []
     else:
         scripts = gen_scripts(seed, 2500 if thorough else 400, thorough)
@@ -354,7 +431,10 @@ def run(tier, seed, replay=None):
         pred_only = ([close_payload_script()] + [gated_script(rg, "c05-gated-%d" % i) for i in range(120 if thorough else 24)]
                      + [wtimeout_script(rg, "c05-wtimeout-%d" % i) for i in range(120 if thorough else 24)]
                      + [wdeadline_script(rg, "c05-wdeadline-%d" % i) for i in range(8 if thorough else 3)]
-                     + [cancel_held_script(rg, "c05-cancelheld-%d" % i) for i in range(120 if thorough else 24)])
+                     + [cancel_held_script(rg, "c05-cancelheld-%d" % i) for i in range(120 if thorough else 24)]
+                     + [cancel_midframe_script(rg, "c05-midframe-%d" % i) for i in range(150 if thorough else 30)]
+                     + [cancel_midframe_script(rg, "c05-midframe-big-%d" % i, n=300000) for i in range(4 if thorough else 1)]
+                     + types_scripts(rg, thorough))
     scripts = cc.staged(exe, scripts, lambda s_, g_: bool(cc.pred_c05(cc.go_view(s_, g_))))
     go, logs = cc.run_go(exe, scripts, shards=8)
     flag, diffs, counts = cc.pick_variant(scripts, go) if scripts else ((False, False), [], {})
@@ -409,10 +489,22 @@ def run(tier, seed, replay=None):
                 cc.crash_violation(res, PID, s, g)
             continue
         view = cc.go_view(s, g)
-        if s["family"] in ("wtimeout", "wdeadline"):
+        if s["family"] in ("wtimeout", "wdeadline", "cancel-midframe"):
             # judged on the raw bytes; a trailing unfinished frame is what a failed Write leaves behind
             found = list(cc.judge_raw(s, g, view))
             nontriv.add((s["id"], (g.get("final") or {}).get("raw_len", 0)))
+            if s["family"] == "cancel-midframe" and (g.get("final") or {}).get("raw_hex") is None:
+                found.append(("raw-missing", "script %s produced no raw bytes to judge" % s["id"]))
+        elif s["family"] == "types":
+            ver = next(st.get("version") for st in s["steps"] if st["op"] == "connect")
+            found = list(cc.judge_raw(s, g, view, versions=((1,) if ver == 1 else (1, 2))))
+            nontriv.add((s["id"], (g.get("final") or {}).get("raw_len", 0)))
+            # a message whose type does not fit in 10 bits cannot be carried: the call must have been refused
+            for c_, r_ in view["reqs"].items():
+                res_ = (view["callers"].get(c_) or {}).get("res")
+                if (r_["typ"] > 1023 or 900 <= r_["typ"] <= 999) and res_ in ("sent", "ok", "nil"):
+                    found.append(("type-not-carried", "%s accepted a message of type %d (does not fit the 10-bit type field / reserved) "
+                                  "and reported success" % (s.get("api"), r_["typ"])))
         else:
             found = list(cc.pred_c05(view))
         if s["family"] == "gated":
